@@ -74,7 +74,9 @@ def c01_jobs(tier, seed):
     if tier == 'quick':
         return [TraceJob(SMALL, 'mul', shards=12, args=['--cases', 720]),
                 TraceJob(NOSSE, 'mul', shards=4, args=['--cases', 240]),
-                TraceJob(SMALL, 'mul', shards=4, args=['--cases', 200, '--seed', seed + 9, '--extra', 'views,nosweep'], label='mul-views@' + SMALL)]
+                TraceJob(SMALL, 'mul', shards=4, args=['--cases', 200, '--seed', seed + 9, '--extra', 'views,nosweep'], label='mul-views@' + SMALL),
+                # C01 quantifies over OpenMP on/off: the multi-core front ends only exist in an OpenMP build
+                TraceJob('small_sse_cache_omp', 'mul', shards=6, args=['--cases', 170, '--seed', seed + 10], env={'OMP_NUM_THREADS': '3'}, label='mul@small_omp')]
     return [TraceJob(SMALL, 'mul', shards=32, timeout=3400), TraceJob(HOST, 'mul', shards=16, args=['--cases', 1500], timeout=3400),
             TraceJob(NOSSE, 'mul', shards=16, args=['--cases', 1500], timeout=3400),
             TraceJob(SMALL, 'mul', shards=32, timeout=3400, args=['--seed', seed + 1000], label='mul@%s#s2' % SMALL),
